@@ -979,9 +979,14 @@ impl<'a> Walk<'a> {
                 let dup = (0..slots.len()).any(|i| (0..i).any(|j| slots[i] == slots[j]));
                 (l && !dup, c, format!("{}>mswz{}", p, if dup { "[dup]" } else { "" }))
             }
-            ir::Expression::ObjectMember(x, _) => {
-                let (_, _, p) = self.place(x);
-                (true, false, format!("{}>objmem", p))
+            ir::Expression::ObjectMember(x, name) => {
+                let (l, c, p) = self.place(x);
+                if matches!(name.as_str(), "Origin" | "TMin" | "Direction" | "TMax") {
+                    // the fields of a RayDesc behave like struct members
+                    (l, c, format!("{}>mem[obj]", p))
+                } else {
+                    (true, false, format!("{}>objmem", p))
+                }
             }
             ir::Expression::Sequence(v) => match v.last() {
                 Some(x) => self.place(x),
@@ -1204,8 +1209,11 @@ impl<'a> Walk<'a> {
                 // functions called as free functions (user functions and non-template intrinsic functions): arguments are
                 // exactly the parameter types
                 let sig0 = m.function_registry.get_function_signature(*id);
-                if sig0.template_params.is_empty() && *ct == ir::CallType::FreeFunction {
+                // a method call carries the object as an extra first argument
+                let skip = if *ct == ir::CallType::FreeFunction { 0 } else { 1 };
+                if sig0.template_params.is_empty() && args.len() >= skip {
                     let sig = sig0.clone();
+                    let args = &args[skip..];
                     if args.len() > sig.param_types.len() || args.len() < sig.non_default_params {
                         self.errors.push(format!("call with {} arguments, signature takes {}..{}", args.len(), sig.non_default_params, sig.param_types.len()));
                     }
@@ -2249,6 +2257,55 @@ pub fn run(args: &Args, out: &mut Out) {
                 let src = format!("struct S0 {{ int q; }}; static int g0; static float3 g1; static S0 g2; void f({} p = {}) {{}} void t() {{ f(); }}", t, e);
                 r.src_case(&src, out);
             }
+        }
+    }
+
+    // (4c) methods of resources and structs: arguments (also out / inout) go through the same overload machinery (raw
+    //      programs, oracle only)
+    {
+        let pre = "struct S0 { int q; float3 v; void set(out float x, float y) { x = y; } float get(inout int k) { return q; } }; \
+                   Texture2D<float4> tx; RWTexture2D<float4> rw; ByteAddressBuffer bab; RWByteAddressBuffer rwb; StructuredBuffer<float4> sb; \
+                   float3 mk(); static const float cf = 1; static float3 gv; enum E0 { E0_A, E0_B, E0_C };";
+        let bodies = [
+            "uint w; uint h; tx.GetDimensions(w, h);",
+            "const uint w = 1; uint h; tx.GetDimensions(w, h);",
+            "uint h; tx.GetDimensions(1u, h);",
+            "uint2 d; tx.GetDimensions(d.x, d.y);",
+            "uint2 d; tx.GetDimensions(d.x, d.xx);",
+            "float w; float h; tx.GetDimensions(w, h);",
+            "int w; uint h; tx.GetDimensions(w, h);",
+            "uint3 d; rw.GetDimensions(d[0], d[1]);",
+            "uint s; uint v = bab.Load(0, s);",
+            "uint v = bab.Load(0, mk().x);",
+            "uint o; rwb.InterlockedAdd(0, 1, o);",
+            "rwb.InterlockedAdd(0, 1, cf);",
+            "uint n; uint st; sb.GetDimensions(n, st);",
+            "S0 s; float f; s.set(f, 1);",
+            "S0 s; s.set(cf, 1);",
+            "S0 s; s.set(gv.x, 1);",
+            "S0 s; s.set(mk().x, 1);",
+            "S0 s; s.set(mk()[0], 1);",
+            "S0 s; int k; float f = s.get(k);",
+            "S0 s; float f = s.get(1);",
+            "S0 s; float f = s.get(s.q);",
+            "const S0 s = (S0)0; float f = s.get(s.q);",
+            "float4 c = tx.Load(int3(0, 0, 0));",
+            "float4 c = tx.Load(1);",
+            "float4 c = tx.Load(gv);",
+            "float4 c = tx.mips[0][uint2(0, 0)];",
+            "tx.mips[0][uint2(0, 0)] = 1;",
+            "RayDesc rd; rd.TMin = 1; rd.Origin.x = cf; float3 d = rd.Direction;",
+            "const RayDesc rd = (RayDesc)0; rd.TMax = 1;",
+            "RayDesc rd; rd.Nope = 1;",
+            "uint n = sizeof(float3) + sizeof(S0) + sizeof(gv);",
+            "uint n = sizeof(1);",
+            "E0 e = E0_A; int i = E0_B; e = E0_C; i = e + 1; bool b = e == E0_A; e++; E0_A = e;",
+            "E0 e = 1;",
+            "E0 e; e = 2;",
+            "int i = -E0_B + ~E0_C; bool b = !E0_A;",
+        ];
+        for b in bodies {
+            r.src_case(&format!("{} void t() {{ {} }}", pre, b), out);
         }
     }
 
